@@ -250,13 +250,13 @@ fn is_busy(e: &rusqlite::Error) -> bool {
 
 thread_local! {
     /// the statement currently running on the writer connection is a ROLLBACK
-    static IN_ROLLBACK: Cell<bool> = const { Cell::new(false) };
-    static STEP_DBG: Cell<u64> = const { Cell::new(0) };
+    pub static IN_ROLLBACK: Cell<bool> = const { Cell::new(false) };
+    pub static STEP_DBG: Cell<u64> = const { Cell::new(0) };
     static FIRE_COUNT: Cell<u64> = const { Cell::new(0) };
     static FIRE_AT: Cell<u64> = const { Cell::new(0) };
 }
 
-fn stmt_tracer(ev: rusqlite::trace::TraceEvent<'_>) {
+pub fn stmt_tracer(ev: rusqlite::trace::TraceEvent<'_>) {
     if let rusqlite::trace::TraceEvent::Stmt(_, sql) = ev {
         // trigger sub-programs report as "-- TRIGGER ..."; they do not change the enclosing statement
         if std::env::var_os("ZSIM_TRACE_SQL").is_some() {
